@@ -5,6 +5,7 @@ import (
 	"crypto/sha256"
 	"fmt"
 	"sync"
+	"sync/atomic"
 	"time"
 
 	"github.com/godaddy/asherah/go/appencryption"
@@ -311,10 +312,17 @@ type LogTap struct {
 	N     int64
 	Keep  bool
 	Scan  func(line string)
+	// active is true while lines are kept or scanned; an idle tap takes no lock and touches no shared variable, so
+	// that it does not order the goroutines that log (the race detector would otherwise see the tap's mutex as
+	// synchronisation between every pair of SDK goroutines)
+	active atomic.Bool
 }
 
 // Debugf implements the SDK's log.Interface.
 func (l *LogTap) Debugf(format string, v ...interface{}) {
+	if !l.active.Load() {
+		return
+	}
 	s := fmt.Sprintf(format, v...)
 	l.mu.Lock()
 	l.N++
@@ -330,10 +338,20 @@ func (l *LogTap) Debugf(format string, v ...interface{}) {
 }
 
 // SetScan installs (or removes) the per-line scanner.
-func (l *LogTap) SetScan(f func(line string)) { l.mu.Lock(); l.Scan = f; l.mu.Unlock() }
+func (l *LogTap) SetScan(f func(line string)) {
+	l.mu.Lock()
+	l.Scan = f
+	l.active.Store(l.Keep || l.Scan != nil)
+	l.mu.Unlock()
+}
 
 // SetKeep switches line retention on or off.
-func (l *LogTap) SetKeep(b bool) { l.mu.Lock(); l.Keep = b; l.mu.Unlock() }
+func (l *LogTap) SetKeep(b bool) {
+	l.mu.Lock()
+	l.Keep = b
+	l.active.Store(l.Keep || l.Scan != nil)
+	l.mu.Unlock()
+}
 
 // Take returns and forgets the kept lines.
 func (l *LogTap) Take() []string {
